@@ -145,6 +145,21 @@ class Inst:
         return self.text
 
 
+class Sentinel(Opaque):
+    """a private module-level marker `_NAME = object()`: an object that is identical to itself and to nothing else"""
+    _all = {}
+
+    def __init__(self, qual):
+        Opaque.__init__(self, qual)
+        self.pe_id = 900000 + len(Sentinel._all)
+
+    @classmethod
+    def of(cls, qual):
+        if qual not in cls._all:
+            cls._all[qual] = cls(qual)
+        return cls._all[qual]
+
+
 class Closure(Opaque):
     """a nested def taken as a value: the function, the environment of its definition (read at call time, as Python does) and the function it was defined in"""
     def __init__(self, name, f, env, owner):
@@ -686,6 +701,8 @@ class PE:
                         return self.expr(g, {}, func, depth)
                     except Incomplete:
                         pass
+                if isinstance(g, ast.Call) and isinstance(g.func, ast.Name) and g.func.id == 'object' and not g.args and not g.keywords and e.id.startswith('_'):
+                    return Sentinel.of('%s.%s' % (mod.modname, e.id))
             t = norm(e)
             if t in self.atoms:
                 return self.atoms[t]
@@ -964,6 +981,9 @@ class PE:
         a, b = const(a), const(b)
         basic = (int, float, str, bool, Fraction, type(None))
         if isinstance(op, (ast.Is, ast.IsNot)) and hasattr(a, 'pe_id') and hasattr(b, 'pe_id'):
+            return (a is b) == isinstance(op, ast.Is)
+        if isinstance(op, (ast.Is, ast.IsNot)) and (isinstance(a, Sentinel) or isinstance(b, Sentinel)):
+            # a private marker object is handed out by the module's own code only: any other value (a computed result, a constant, a symbolic input) is not it
             return (a is b) == isinstance(op, ast.Is)
         if isinstance(op, (ast.Is, ast.IsNot)) and isinstance(a, (bool, type(None))) and isinstance(b, (bool, type(None))):
             return (a is b) == isinstance(op, ast.Is)
